@@ -323,7 +323,7 @@ def _body_st(html=False):
 
 def _att_st():
     doc = st.tuples(st.sampled_from(["pdf", "docx", "xlsx", "txt", "csv", "html"]), st.integers(1, 10**6),
-                    st.sampled_from(["report", "Übersicht 2024", "日本語", "a b (1)", "x" * 50])).map(
+                    st.sampled_from(["report", "Übersicht 2024", "日本語", "a b (1)", "x" * 50, "2024/q1/report", "scans\\page 1", "y" * 250])).map(
         lambda t: {"name": f"{t[2]}.{t[0]}", "fmt": t[0], "seed": t[1],
                    "type": {"pdf": "application/pdf", "docx": "application/vnd.openxmlformats-officedocument.wordprocessingml.document",
                             "xlsx": "application/vnd.openxmlformats-officedocument.spreadsheetml.sheet", "txt": "text/plain", "csv": "text/csv", "html": "text/html"}[t[0]]})
